@@ -83,7 +83,11 @@ class BertE(JobDispatcher):
 
             if not isinstance(err, (BertE_Exception, InternalException)):
                 LOG.exception("Job '%s' finished with an error.", job)
-                job.details = str(err)
+                try:
+                    job.details = str(err)
+                except Exception:
+                    # a faulty exception must not kill the worker thread
+                    job.details = type(err).__name__
             elif isinstance(err, JobFailure):
                 job.details = str(err)
                 LOG.info("API job '%s' finished with an error: %s",
